@@ -9,6 +9,8 @@ RULE = ('(a) chains of every container kind at depths limit-2 .. limit+2 (plus m
         'a flatten function that never terminates) through flatten / flatten_with_path / iter, and every operation at the limit; '
         '(b) the grid traversal (13) x container kind (7) x trigger (is_leaf on child / sibling flatten function) x position '
         '(first, middle, last) x mutation (delete before, delete after, clear, append, replace), each cell in a forked child; '
+        "(b') unflatten / tree_unflatten reading the leaves from a list / deque / dict view that a custom node's unflatten function "
+        'mutates (same mutations, after the first / middle / last leaf), forked; '
         '(c) treespec methods and API functions x argument-type confusions, each in a forked child; (d) composed treespecs of '
         'depth 1001 .. 20 000 (thorough: 200 000) x every treespec method, forked; correspondence: loop machine and walker '
         'machine on the same requests; thorough: all forked cells again on an ASan+UBSan build of the engine; '
@@ -22,12 +24,13 @@ SETUP_LINES = []
 TEARDOWN_LINES = []
 IMPL_TIMEOUT = 6000
 ASAN_TIER = 'thorough'          # engine: run the cases of ASAN_KINDS again under the sanitizer build
-ASAN_KINDS = ['mutate', 'confuse', 'deepspec', 'selfref', 'malformed']
+ASAN_KINDS = ['mutate', 'unflat', 'confuse', 'deepspec', 'selfref', 'malformed']
 
 TRAVERSALS = ['flatten', 'flatten_with_path', 'flatten_with_accessor', 'iter', 'leaves', 'structure', 'paths', 'accessors',
               'map', 'map_with_path', 'flatten_up_to', 'broadcast_prefix', 'from_collection']
 KINDS = ['list', 'dict', 'odict', 'ddict', 'deque', 'custom', 'nested']
 MUTATIONS = ['del-before', 'del-after', 'clear', 'append', 'replace']
+UNFLATTEN_TRAVERSALS = ['spec.unflatten', 'tree_unflatten', 'spec.unflatten-none-is-leaf']
 MALFORMED_TRAVERSALS = ['flatten', 'flatten_with_path', 'flatten_with_accessor', 'iter', 'leaves', 'structure', 'paths',
                         'accessors', 'map', 'map_with_path', 'map_with_accessor', 'flatten_one_level', 'from_collection',
                         'flatten_up_to', 'broadcast_prefix', 'transpose_map_with_path']
@@ -72,6 +75,11 @@ def generate(gen, tier):
     batch = 60
     for i in range(0, len(cells), batch):
         cases.append({'lines': [], 'o': {'kind': 'mutate', 'cells': [list(c) for c in cells[i:i + batch]]}})
+    # (b') the traversed container is the *leaves* argument of unflatten, mutated by a custom node's unflatten function
+    ucells = [(t, k, pos, m) for t in UNFLATTEN_TRAVERSALS for k in ('list', 'deque', 'dictvalues') for pos in ('first', 'middle', 'last')
+              for m in MUTATIONS]
+    for i in range(0, len(ucells), 45):
+        cases.append({'lines': [], 'o': {'kind': 'unflat', 'cells': [list(c) for c in ucells[i:i + 45]]}})
     # (e) malformed returns of a registered flatten function x traversal
     mcells = [(t, r) for t in MALFORMED_TRAVERSALS for r in MALFORMED_RETURNS]
     for i in range(0, len(mcells), 24):
@@ -99,7 +107,7 @@ def distribution(cases):
     d = {}
     for c in cases:
         k = c['o']['kind']
-        d[k] = d.get(k, 0) + (len(c['o']['cells']) if k in ('mutate', 'malformed') else 1)
+        d[k] = d.get(k, 0) + (len(c['o']['cells']) if k in ('mutate', 'malformed', 'unflat') else 1)
     return {'case_kinds': d, 'grid': {'traversals': len(TRAVERSALS), 'kinds': len(KINDS), 'triggers': 2, 'positions': 3,
                                       'mutations': len(MUTATIONS)}}
 
@@ -115,7 +123,7 @@ def oracle(impl, o):
         if status != 'ok':
             return [{'key': f'{kind}-crash', 'what': f'{o["req"]}: {status}', 'stderr': text[-600:]}]
         return []
-    return {'depth': _depth, 'selfref': _selfref, 'mutate': _mutate, 'confuse': _confuse, 'deepspec': _deepspec,
+    return {'depth': _depth, 'selfref': _selfref, 'mutate': _mutate, 'unflat': _unflat, 'confuse': _confuse, 'deepspec': _deepspec,
             'malformed': _malformed}[kind](impl, o)
 
 
@@ -137,6 +145,21 @@ def _ensure_classes():
     optree.register_pytree_node(Box, lambda b: (b.kids, None), lambda md, kids: Box(list(kids)), namespace='c16')
     optree.register_pytree_node(Trigger, trigger_flatten, lambda md, kids: Trigger(), namespace='c16')
     optree.register_pytree_node(Loop, lambda x: ((x,), None), lambda md, kids: Loop(), namespace='c16')
+
+    class UTrigger:       # custom node (one child) whose *unflatten* function runs an action
+        action = None
+
+        def __init__(self, kid=None):
+            self.kid = kid
+
+    def utrigger_unflatten(md, kids):
+        kids = list(kids)
+        if UTrigger.action is not None:
+            act, UTrigger.action = UTrigger.action, None
+            act()
+        return UTrigger(kids[0] if kids else None)
+    optree.register_pytree_node(UTrigger, lambda t: ((t.kid,), None), utrigger_unflatten, namespace='c16')
+    mem_impl.UTrigger = UTrigger
     mem_impl.Lf = Lf
     mem_impl._c16_ready = True
     return mem_impl
@@ -446,6 +469,59 @@ def _mutate(impl, o):
         elif status == 'ok' and "'odd_leaves': []" not in text:
             fails.append({'key': f'mutation-garbage-{key}', 'what': f'{trav} over a mutated {kind} ({mutation}, {pos}, {trig}) '
                           f'returned unexpected objects: {text[:200]}', 'cell': cell})
+    return fails
+
+
+def _unflat(impl, o):
+    """`treespec.unflatten(leaves)` / `tree_unflatten` where the unflatten function of a custom node changes the very
+    container the leaves are being read from"""
+    import optree
+    from collections import deque
+    M = _ensure_classes()
+    fails = []
+
+    def run_cell(trav, kind, pos, mutation):
+        n = 5
+        Lf = M.Lf
+        at = {'first': 0, 'middle': n // 2, 'last': n - 1}[pos]
+        shape = [Lf(i) for i in range(n)]
+        shape[at] = M.UTrigger(Lf(at))                     # the node is completed after leaf `at` has been read
+        nil = trav.endswith('none-is-leaf')
+        spec = optree.tree_structure(shape, namespace='c16', none_is_leaf=nil)
+        items = [Lf(3 * 10**6 + i) for i in range(n)]
+        keys = [f'k{i}' for i in range(n)]
+        if kind == 'list':
+            c = list(items)
+            leaves = c
+        elif kind == 'deque':
+            c = deque(items)
+            leaves = c
+        else:
+            c = dict(zip(keys, items))
+            leaves = c.values()
+        fired = [False]
+        act = _mutators(M, c, {'dictvalues': 'dict'}.get(kind, kind), items, keys, at, mutation)
+
+        def once():
+            fired[0] = True
+            act()
+        M.UTrigger.action = once
+        out = spec.unflatten(leaves) if trav.startswith('spec.') else optree.tree_unflatten(spec, leaves)
+        got = optree.tree_leaves(out, namespace='c16', is_leaf=lambda x: isinstance(x, M.Lf) or (isinstance(x, list) and len(x) == 1))
+        bad = [type(x).__name__ for x in got if not isinstance(x, (M.Lf, list))]
+        return {'fired': fired[0], 'odd_leaves': bad[:3], 'n': len(got)}
+    for cell in o['cells']:
+        trav, kind, pos, mutation = cell
+        M.UTrigger.action = None
+        status, text = M.in_child(lambda: run_cell(trav, kind, pos, mutation), timeout=60)
+        key = f'{trav}-{kind}'
+        if status.startswith('crash') or status == 'timeout':
+            fails.append({'key': f'unflatten-mutation-crash-{key}', 'what': f'{trav} reading its leaves from a {kind} that the '
+                          f'unflatten function of a custom node mutates ({mutation}) after leaf {pos}: {status}', 'cell': cell,
+                          'stderr': text[-600:]})
+        elif status == 'ok' and ("'odd_leaves': []" not in text or "'fired': True" not in text or "'n': 5" not in text):
+            fails.append({'key': f'unflatten-mutation-garbage-{key}', 'what': f'{trav} over a mutated {kind} ({mutation}, {pos}) '
+                          f'returned {text[:200]}', 'cell': cell})
     return fails
 
 
